@@ -222,4 +222,21 @@ CHECKS = {
         thorough=[R("^(TestFixed|TestTriggerExpressions)$", 50000, 1, 600), R("^TestHooks$", 250, 15, 3400, shrinktime="180s")],
         floors={"deferred-await": ("TestHooks", 0.3), "two-weights-in-a-moment": ("TestHooks", 0.2)},
     ),
+    "C09": dict(
+        pkg="./props/c09", bins=["./cmd/simcore"], race_bins=["./cmd/simcore"], level="fault_enumeration",
+        rule=("whole core against the simulated world; for a drawn transition T (START_ACTIVITY, STOP_ACTIVITY, RESET, CONFIGURE) rapid generates "
+              "1-8 hooks (probe calls, and hook tasks at moments that occur first in T) at before_T / leave_<src> / enter_<dst> / after_T with "
+              "weights -2..2, each critical or not, and a failing subset (call returns an error, call reports a timeout, hook task exits "
+              "non-zero, terminates involuntarily, never terminates within its 400 ms timeout), alone or several at one (moment, weight). "
+              "Oracle (model of one transition): first critical failure at before/leave => no later hook, no task command, error naming the "
+              "trigger, source state kept, GO_ERROR starts from the source; at enter/after => destination kept, all moments still run, error "
+              "reported, GO_ERROR starts from the destination; no critical failure => success whatever non-critical hooks did; the core survives "
+              "(thorough: -race core, race reports in AwaitAll/handleHooks/runTasksAsHooks are violations). Non-trivial: >=1 failing hook."),
+        assumptions=["hooks of later weights in the same pass of an enter_/after_ moment after a critical failure are not claimed either way",
+                     "all hooks are awaited at their trigger in this check (deferred awaits are C08's subject)"],
+        quick=[R("^(TestFixed|TestCanary.*)$", 1, 1, 900), R("^TestHookFailures$", 12, 10, 900, shrinktime="90s")],
+        thorough=[R("^(TestFixed|TestCanary.*)$", 1, 1, 900), R("^TestHookFailures$", 250, 14, 3400, shrinktime="180s"),
+                  R("^TestHookFailures$", 60, 2, 3400, race=True, env={"VERIF_RACE": "1"}, shrinktime="60s")],
+        floors={"critical-failure": ("TestHookFailures", 0.3), "simultaneous-failures": ("TestHookFailures", 0.05)},
+    ),
 }
